@@ -8,8 +8,9 @@ Text-level extraction with a small Rust tokenizer (no rustc). What is extracted,
   * `macro_rules! set_general_handler_entry`: every arm in source order (macro_rules! takes the FIRST
     matching arm) -- the 8 literal bits of its matcher (bit7 first) or the catch-all `$(, $_bits:tt)*`,
     and from its transcriber: empty (`=> {}`) or exactly one `extern "x86-interrupt" fn handler(..)`
-    (parameters, `-> !`), one call `$handler(frame, <index>.into(), <error>)`, an optional trailing
-    `panic!(..)`, and one `$idt.<field>.set_handler_fn(handler)` / `$idt[<expr>].set_handler_fn(handler)`.
+    (parameters, `-> !`; the names of the stub and of its parameters are free), one call
+    `$handler(<frame param>, <index>[.into()], <error>)`, an optional trailing `panic!(..)`, and one
+    `$idt.<field>.set_handler_fn(<stub>)` / `$idt[<expr>].set_handler_fn(<stub>)`.
   * `macro_rules! set_general_handler_recursive_bits`: the 8-bit arm (names and order of the `$bitN:tt`
     fragments, the `const IDX: u8 = ...` formula as (bit, shift) terms, the guard `$range.contains(&IDX)`,
     the order in which the bits are handed to `set_general_handler_entry!`) and the recursive arm (the
@@ -337,17 +338,21 @@ def parse_entry_arm(matcher, body, line):
     if not ts:
         arm["empty"] = True
         return arm
-    # statement 1: extern "x86-interrupt" fn handler(<params>) [-> !] { <body> }
+    # statement 1: extern "x86-interrupt" fn <name>(<params>) [-> !] { <body> }
     if not (ts[0].text == "extern" and ts[1].kind == "str" and ts[1].text == "x86-interrupt"
-            and ts[2].text == "fn" and ts[3].text == "handler" and ts[4].text == "("):
-        fail(ts[0], "stub `extern \"x86-interrupt\" fn handler(` expected")
+            and ts[2].text == "fn" and ts[3].kind == "id" and ts[4].text == "("):
+        fail(ts[0], "stub `extern \"x86-interrupt\" fn <name>(` expected")
+    fname = ts[3].text
     p_end = match_close(ts, 4)
     params = [p for p in split_top(ts[5:p_end]) if p]
-    if not params or join(params[0]) != "frame:$crate::structures::idt::InterruptStackFrame":
-        fail(ts[4], "first stub parameter `frame: $crate::structures::idt::InterruptStackFrame` expected")
+    if not params or len(params[0]) < 3 or params[0][0].kind != "id" or \
+            join(params[0][1:]) != ":$crate::structures::idt::InterruptStackFrame":
+        fail(ts[4], "first stub parameter `<name>: $crate::structures::idt::InterruptStackFrame` expected")
+    pframe, perr = params[0][0].text, None
     if len(params) == 2:
-        if len(params[1]) < 3 or params[1][0].text != "error_code" or params[1][1].text != ":":
-            fail(params[1][0], "second stub parameter `error_code: <type>` expected")
+        if len(params[1]) < 3 or params[1][0].kind != "id" or params[1][1].text != ":":
+            fail(params[1][0], "second stub parameter `<name>: <type>` expected")
+        perr = params[1][0].text
         arm["has_err"] = True
         arm["err_type"] = strip_crate_path(params[1][2:])
         if arm["err_type"] not in ("u64", "PageFaultErrorCode"):
@@ -373,19 +378,25 @@ def parse_entry_arm(matcher, body, line):
     args = split_top(call[3:-1])
     if len(args) != 3:
         fail(call[0], f"`$handler` called with {len(args)} arguments")
-    if join(args[0]) != "frame":
-        fail(call[0], f"first argument of `$handler` must be `frame`, found `{join(args[0])}`")
+    if join(args[0]) != pframe:
+        fail(call[0], f"first argument of `$handler` must be the stub's frame parameter `{pframe}`, found `{join(args[0])}`")
     a1 = join(args[1])
-    m = re.fullmatch(r"(\$idx|IDX)\.into\(\)", a1)
+    m = re.fullmatch(r"(\$idx|IDX)(\.into\(\))?", a1)
     if not m:
         fail(call[0], f"index argument `$idx.into()` / `IDX.into()` expected, found `{a1}`")
     arm["index_arg"] = m.group(1)
     a2 = join(args[2])
-    if a2 not in ("None", "Some(error_code)", "Some(error_code.bits())"):
+    forms = {"None": "None"}
+    if perr is not None:
+        forms[f"Some({perr})"] = "Some(error_code)"
+        forms[f"Some({perr}.bits())"] = "Some(error_code.bits())"
+    if a2 not in forms:
         fail(call[0], f"unknown error-code argument `{a2}`")
-    if a2 != "None" and not arm["has_err"]:
-        fail(call[0], "`error_code` used by a stub without that parameter")
-    arm["err_arg"] = a2
+    arm["err_arg"] = forms[a2]
+    if arm["err_arg"] == "Some(error_code.bits())" and arm["err_type"] != "PageFaultErrorCode":
+        fail(call[0], "`.bits()` on an error code that is not a PageFaultErrorCode")
+    if arm["err_arg"] == "Some(error_code)" and arm["err_type"] != "u64":
+        fail(call[0], "a typed error code handed on without `.bits()`")
     for extra in stmts[1:]:
         if len(extra) >= 3 and extra[0].text == "panic" and extra[1].text == "!":
             arm["panics_after"] = True
@@ -394,11 +405,11 @@ def parse_entry_arm(matcher, body, line):
     # statement 2: $idt.<field>.set_handler_fn(handler);  /  $idt[<expr>].set_handler_fn(handler);
     rest = ts[b_end + 1:]
     rest_s = join(rest)
-    m = re.fullmatch(r"\$idt\.([A-Za-z_][A-Za-z0-9_]*)\.set_handler_fn\(handler\);?", rest_s)
+    m = re.fullmatch(r"\$idt\.([A-Za-z_][A-Za-z0-9_]*)\.set_handler_fn\(%s\);?" % re.escape(fname), rest_s)
     if m:
         arm["target"] = m.group(1)
     else:
-        m = re.fullmatch(r"\$idt\[(\$idx|IDX)\]\.set_handler_fn\(handler\);?", rest_s)
+        m = re.fullmatch(r"\$idt\[(\$idx|IDX)\]\.set_handler_fn\(%s\);?" % re.escape(fname), rest_s)
         if not m:
             fail(rest[0] if rest else ts[b_end], f"installation statement not recognised: `{rest_s}`")
         arm["target"] = "[]"
@@ -505,6 +516,8 @@ def parse_range_expr(ts):
             lo, hi = join(ts[:i]), join(ts[i + 1:])
 
             def side(s, tk):
+                if s == "":
+                    return ""
                 if re.fullmatch(r"\$[A-Za-z_]+", s):
                     return s
                 if re.fullmatch(r"[0-9][0-9_]*(u8)?", s):
@@ -900,15 +913,17 @@ def render_lean(ex):
     o.append(f"def recAppended : List Nat := {llist(str(b) for b in r['appended'])}\n")
     t = ex["top"]
     o.append("/-! `set_general_handler!`: range expression each form forwards, as (operator, lower, upper);\n"
-             "a bound is a literal (`some n`) or the form's own macro fragment `$idx` (`none`). -/\n")
+             "a bound is `(0, n)` = the literal n, `(1, 0)` = the form's own macro fragment `$idx`, `(2, 0)` = absent. -/\n")
     def lbound(b):
-        return "none" if b.startswith("$") else f"(some {b})"
+        return "(2, 0)" if b == "" else "(1, 0)" if b.startswith("$") else f"(0, {b})"
     for key, nm in (("whole", "formWhole"), ("single", "formSingle")):
         op, lo, hi = t[key]
         for b in (lo, hi):
             if b.startswith("$") and (key != "single" or b != "$" + t["single_frag"]):
                 raise ExtractError(f"idt.rs: set_general_handler!: form `{key}` uses the unbound fragment `{b}`")
-        o.append(f"def {nm} : String × Option Nat × Option Nat := ({lstr(op)}, {lbound(lo)}, {lbound(hi)})")
+        if op == "..=" and hi == "":
+            raise ExtractError(f"idt.rs: set_general_handler!: form `{key}`: `..=` without upper bound")
+        o.append(f"def {nm} : String × (Nat × Nat) × (Nat × Nat) := ({lstr(op)}, {lbound(lo)}, {lbound(hi)})")
     o.append(f"def formSingleFragment : String := {lstr('$' + t['single_frag'])}")
     o.append(f"def formRange : String := {lstr(t['range'])}")
     o.append(f"def rangeBoundType : String := {lstr(t['bound_type'])}")
